@@ -4,21 +4,21 @@
 // @include common/prelude.rs
 // @include C02/helpers.rs
 use super::*;
-use ndarray::{Ix1, Ix2};
+use ndarray::Ix1;
 use rand::{rngs::SmallRng, SeedableRng};
 
 // ---------------------------------------------------------------------------------------------
-// Contracts of the index-selecting operations, from the property statement:
-//   shuffle            : result = a permutation of ALL samples; record row and target(s) of every result row
-//                        belong to the same original sample; per-column names are the original ones; weights,
-//                        if carried, belong to the same sample
+// Contracts of the bootstrap operations, from the property statement ("bootstrap draws only existing
+// samples and features", record and target of a result row belong to the same original sample):
 //   bootstrap_samples  : every result row is an existing sample, whole (all features in order, its own target)
 //   bootstrap_features : all samples in order with their own targets; every result column is an existing
 //                        feature column, whole
 //   bootstrap          : every result row is an existing sample restricted to a selection of existing feature
 //                        columns that is the same for all rows; target is the sample's own
-// The random generator is the concrete `SmallRng` seeded with 0..3 (a symbolic generator makes the
+//   weights, if the result carries any, belong to the same sample.
+// Generators: the concrete `SmallRng` seeded with 0..3 and a scripted witness (a symbolic generator makes the
 // rejection loop of `gen_range` unbounded); the datasets are identity-tagged (helpers.rs).
+// `shuffle` is NOT decided here, see the note above the units.
 // ---------------------------------------------------------------------------------------------
 
 fn c02_tagged1(n: usize, p: usize) -> Dataset<u8, u8, Ix1> {
@@ -27,89 +27,12 @@ fn c02_tagged1(n: usize, p: usize) -> Dataset<u8, u8, Ix1> {
         .with_feature_names(C02_FNAMES[..p].to_vec())
         .with_target_names(C02_TNAMES[..1].to_vec())
 }
-fn c02_tagged2(n: usize, p: usize, m: usize) -> Dataset<u8, u8, Ix2> {
-    Dataset::new(c02_records(n, p), c02_targets2(n, m))
-        .with_weights(c02_weights(n))
-        .with_feature_names(C02_FNAMES[..p].to_vec())
-        .with_target_names(C02_TNAMES[..m].to_vec())
-}
 
 /// which original sample does result row j come from?  (read off the target tag; must be an existing sample)
 fn c02_origin1(out: &Dataset<u8, u8, Ix1>, j: usize, n: usize) -> usize {
     let t = out.targets[j];
     assert!(t >= 100 && (t as usize) < 100 + n);      // "draws only existing samples"
     t as usize - 100
-}
-
-/// returns true iff the result order differs from the input order
-fn c02_check_shuffle<const N: usize>(seed: u64) -> bool {
-    let ds = c02_tagged1(N, 2);
-    let mut rng = SmallRng::seed_from_u64(seed);
-    let out = ds.shuffle(&mut rng);
-    assert!(out.records.dim() == (N, 2) && out.targets.len() == N);
-    let mut seen = [false; N];
-    let mut moved = false;
-    for j in 0..N {
-        let i = c02_origin1(&out, j, N);
-        assert!(!seen[i]);                             // no sample twice => (N rows, N samples) a permutation of all
-        seen[i] = true;
-        assert!(out.records[(j, 0)] == (10 * i) as u8 && out.records[(j, 1)] == (10 * i + 1) as u8);
-        if out.weights.len() != 0 { assert!(out.weights.len() == N && out.weights[j] == 0.5 + i as f32); }
-        if i != j { moved = true; }
-    }
-    assert!(out.feature_names().is_empty() || (out.feature_names().len() == 2 && out.feature_names()[0] == "f0" && out.feature_names()[1] == "f1"));
-    assert!(out.target_names().is_empty() || (out.target_names().len() == 1 && out.target_names()[0] == "t0"));
-    // input untouched
-    for i in 0..N { assert!(ds.records[(i, 0)] == (10 * i) as u8 && ds.targets[i] == (100 + i) as u8); }
-    moved
-}
-
-// @unit class=bounded tier=quick mem=light bound="n=4,p=2,single target,weights+names,SmallRng seeds 0 and 1" timeout=900 fns=linfa::dataset::DatasetBase::shuffle
-#[kani::proof]
-#[kani::unwind(9)]
-#[kani::stub(alloc::fmt::format, fmt_stub)]
-fn c02_shuffle_seed01() {
-    let m0 = c02_check_shuffle::<4>(0);
-    let m1 = c02_check_shuffle::<4>(1);
-    kani::cover!(m0 || m1);
-}
-
-// @unit class=bounded tier=thorough mem=light bound="n=4,p=2,single target,weights+names,SmallRng seeds 2 and 3" timeout=900 fns=linfa::dataset::DatasetBase::shuffle
-#[kani::proof]
-#[kani::unwind(9)]
-#[kani::stub(alloc::fmt::format, fmt_stub)]
-fn c02_shuffle_seed23() {
-    let m2 = c02_check_shuffle::<4>(2);
-    let m3 = c02_check_shuffle::<4>(3);
-    kani::cover!(m2 || m3);
-}
-
-// @unit class=bounded tier=thorough mem=light bound="n=3,p=1,2 target columns,names,SmallRng seeds 0..3" timeout=900 fns=linfa::dataset::DatasetBase::shuffle
-#[kani::proof]
-#[kani::unwind(9)]
-#[kani::stub(alloc::fmt::format, fmt_stub)]
-fn c02_shuffle_mt() {
-    let mut moved = false;
-    for seed in 0..4u64 {
-        let ds = c02_tagged2(3, 1, 2);
-        let mut rng = SmallRng::seed_from_u64(seed);
-        let out = ds.shuffle(&mut rng);
-        assert!(out.records.dim() == (3, 1) && out.targets.dim() == (3, 2));
-        let mut seen = [false; 3];
-        for j in 0..3 {
-            let r = out.records[(j, 0)];
-            assert!(r % 10 == 0 && r < 30);
-            let i = (r / 10) as usize;
-            assert!(!seen[i]);
-            seen[i] = true;
-            assert!(out.targets[(j, 0)] == (100 + i) as u8 && out.targets[(j, 1)] == (150 + i) as u8);
-            if out.weights.len() != 0 { assert!(out.weights.len() == 3 && out.weights[j] == 0.5 + i as f32); }
-            if i != j { moved = true; }
-        }
-        assert!(out.target_names().is_empty() || (out.target_names().len() == 2 && out.target_names()[0] == "t0" && out.target_names()[1] == "t1"));
-        assert!(out.feature_names().is_empty() || (out.feature_names().len() == 1 && out.feature_names()[0] == "f0"));
-    }
-    kani::cover!(moved);
 }
 
 /// every row of `out` is sample i(row) of the tagged dataset restricted to columns cols[..] (same for all rows);
@@ -135,127 +58,9 @@ fn c02_post_bootstrap(out: &Dataset<u8, u8, Ix1>, n: usize, p: usize, want_rows:
     dup
 }
 
-// @unit class=bounded tier=quick mem=light bound="n=3,p=2,draw 4 samples,2 consecutive draws,SmallRng seeds 0 and 1" timeout=900 fns=linfa::dataset::DatasetBase::bootstrap_samples
-#[kani::proof]
-#[kani::unwind(9)]
-#[kani::stub(alloc::fmt::format, fmt_stub)]
-fn c02_bootstrap_samples_seed01() {
-    let ds = c02_tagged1(3, 2);
-    let mut dup = true;
-    for seed in 0..2u64 {
-        let mut rng = SmallRng::seed_from_u64(seed);
-        let mut it = ds.bootstrap_samples(4, &mut rng);
-        for _ in 0..2 {
-            let out = it.next().unwrap();
-            dup &= c02_post_bootstrap(&out, 3, 2, 4, 2, true, false);
-        }
-    }
-    kani::cover!(dup);     // 4 draws from 3 samples: a repetition in every draw
-}
 
-// @unit class=bounded tier=thorough mem=light bound="n=3,p=2,draw 2 samples,SmallRng seeds 2 and 3" timeout=900 fns=linfa::dataset::DatasetBase::bootstrap_samples
-#[kani::proof]
-#[kani::unwind(9)]
-#[kani::stub(alloc::fmt::format, fmt_stub)]
-fn c02_bootstrap_samples_seed23() {
-    let ds = c02_tagged1(3, 2);
-    let mut rows = 0usize;
-    for seed in 2..4u64 {
-        let mut rng = SmallRng::seed_from_u64(seed);
-        let out = ds.bootstrap_samples(2, &mut rng).next().unwrap();
-        c02_post_bootstrap(&out, 3, 2, 2, 2, true, false);
-        rows += out.nsamples();
-    }
-    kani::cover!(rows == 4);
-}
-
-// @unit class=bounded tier=quick mem=light bound="n=3,p=3,draw 2 features,2 consecutive draws,SmallRng seeds 0 and 1" timeout=900 fns=linfa::dataset::DatasetBase::bootstrap_features
-#[kani::proof]
-#[kani::unwind(9)]
-#[kani::stub(alloc::fmt::format, fmt_stub)]
-fn c02_bootstrap_features_seed01() {
-    let ds = c02_tagged1(3, 3);
-    let mut cols = 0usize;
-    for seed in 0..2u64 {
-        let mut rng = SmallRng::seed_from_u64(seed);
-        let mut it = ds.bootstrap_features(2, &mut rng);
-        for _ in 0..2 {
-            let out = it.next().unwrap();
-            c02_post_bootstrap(&out, 3, 3, 3, 2, false, true);
-            cols += out.nfeatures();
-        }
-    }
-    kani::cover!(cols == 8);
-}
-
-// @unit class=bounded tier=thorough mem=light bound="n=2,p=3,draw 4 features,SmallRng seeds 2 and 3" timeout=900 fns=linfa::dataset::DatasetBase::bootstrap_features
-#[kani::proof]
-#[kani::unwind(9)]
-#[kani::stub(alloc::fmt::format, fmt_stub)]
-fn c02_bootstrap_features_seed23() {
-    let ds = c02_tagged1(2, 3);
-    let mut cols = 0usize;
-    for seed in 2..4u64 {
-        let mut rng = SmallRng::seed_from_u64(seed);
-        let out = ds.bootstrap_features(4, &mut rng).next().unwrap();
-        c02_post_bootstrap(&out, 2, 3, 2, 4, false, true);
-        cols += out.nfeatures();
-    }
-    kani::cover!(cols == 8);
-}
-
-// @unit class=bounded tier=quick mem=light bound="n=3,p=3,draw (4 samples,2 features),SmallRng seeds 0 and 1" timeout=900 fns=linfa::dataset::DatasetBase::bootstrap
-#[kani::proof]
-#[kani::unwind(9)]
-#[kani::stub(alloc::fmt::format, fmt_stub)]
-fn c02_bootstrap_seed01() {
-    let ds = c02_tagged1(3, 3);
-    let mut dup = true;
-    for seed in 0..2u64 {
-        let mut rng = SmallRng::seed_from_u64(seed);
-        let out = ds.bootstrap((4, 2), &mut rng).next().unwrap();
-        dup &= c02_post_bootstrap(&out, 3, 3, 4, 2, false, false);
-    }
-    kani::cover!(dup);
-}
-
-// @unit class=bounded tier=thorough mem=light bound="n=3,p=3,draw (2 samples,3 features),2 consecutive draws,SmallRng seeds 2 and 3" timeout=900 fns=linfa::dataset::DatasetBase::bootstrap
-#[kani::proof]
-#[kani::unwind(9)]
-#[kani::stub(alloc::fmt::format, fmt_stub)]
-fn c02_bootstrap_seed23() {
-    let ds = c02_tagged1(3, 3);
-    let mut rows = 0usize;
-    for seed in 2..4u64 {
-        let mut rng = SmallRng::seed_from_u64(seed);
-        let mut it = ds.bootstrap((2, 3), &mut rng);
-        for _ in 0..2 {
-            let out = it.next().unwrap();
-            c02_post_bootstrap(&out, 3, 3, 2, 3, false, false);
-            rows += out.nsamples();
-        }
-    }
-    kani::cover!(rows == 8);
-}
-
-// @unit class=bounded tier=thorough mem=light bound="exp n=3 seed 0" timeout=600 fns=linfa::dataset::DatasetBase::shuffle
-#[kani::proof]
-#[kani::unwind(9)]
-#[kani::stub(alloc::fmt::format, fmt_stub)]
-fn c02_zshuffle_n3_s0() {
-    let m0 = c02_check_shuffle::<3>(0);
-    kani::cover!(m0 || !m0);
-}
-
-// @unit class=bounded tier=thorough mem=light bound="exp n=2 seed 0" timeout=600 fns=linfa::dataset::DatasetBase::shuffle
-#[kani::proof]
-#[kani::unwind(9)]
-#[kani::stub(alloc::fmt::format, fmt_stub)]
-fn c02_zshuffle_n2_s0() {
-    let m0 = c02_check_shuffle::<2>(0);
-    kani::cover!(m0 || !m0);
-}
-
+/// Contract witness for `R: Rng` (the operations are generic over the generator): a scripted generator that
+/// replays four fixed 64-bit words.  Every value it can return is a value some real generator can return.
 struct ScriptRng { vals: [u64; 4], pos: usize }
 impl rand::RngCore for ScriptRng {
     fn next_u32(&mut self) -> u32 { (self.next_u64() >> 32) as u32 }
@@ -263,45 +68,107 @@ impl rand::RngCore for ScriptRng {
     fn fill_bytes(&mut self, dest: &mut [u8]) { for b in dest.iter_mut() { *b = self.next_u64() as u8; } }
     fn try_fill_bytes(&mut self, dest: &mut [u8]) -> core::result::Result<(), rand::Error> { self.fill_bytes(dest); Ok(()) }
 }
-// @unit class=bounded tier=thorough mem=light bound="exp script n=3" timeout=600 fns=linfa::dataset::DatasetBase::shuffle
+const C02_SCRIPT: [u64; 4] = [0x9E3779B97F4A7C15, 0x3C6EF372FE94F82A, 0xDAA66D2C7DDF743F, 0x78DDE6E5FD29F054];
+
+// Only ONE index per draw is affordable: ndarray's `select` builds its result with `concatenate`, and already two
+// views exceed 14 GB in CBMC (measured); so the units below draw one sample / one feature at a time, several times
+// from the same iterator.  `shuffle` (n indices) is therefore not decided.
+
+// @unit class=bounded tier=quick mem=light bound="n=3,p=2,1 sample per draw,3 consecutive draws,scripted generator" timeout=600 fns=linfa::dataset::DatasetBase::bootstrap_samples
 #[kani::proof]
 #[kani::unwind(5)]
 #[kani::stub(alloc::fmt::format, fmt_stub)]
-fn c02_zscript_n3() {
+fn c02_bootstrap_samples_draw1() {
     let ds = c02_tagged1(3, 2);
-    let mut rng = ScriptRng { vals: [0x9E3779B97F4A7C15, 0x3C6EF372FE94F82A, 0xDAA66D2C7DDF743F, 0x78DDE6E5FD29F054], pos: 0 };
-    let out = ds.shuffle(&mut rng);
-    assert!(out.records.dim() == (3, 2) && out.targets.len() == 3);
-    let mut seen = [false; 3];
-    for j in 0..3 {
-        let i = c02_origin1(&out, j, 3);
-        assert!(!seen[i]);
-        seen[i] = true;
-        assert!(out.records[(j, 0)] == (10 * i) as u8 && out.records[(j, 1)] == (10 * i + 1) as u8);
+    let mut rng = ScriptRng { vals: C02_SCRIPT, pos: 0 };
+    let mut it = ds.bootstrap_samples(1, &mut rng);
+    let mut first = [0u8; 3];
+    for k in 0..3 {
+        let out = it.next().unwrap();
+        c02_post_bootstrap(&out, 3, 2, 1, 2, true, false);
+        first[k] = out.targets[0];
     }
-    kani::cover!(out.targets[0] != 100);
+    kani::cover!(first[0] != first[1] || first[1] != first[2]);
 }
 
-// @unit class=bounded tier=thorough mem=light bound="exp script bootstrap_samples n=2 draw 1" timeout=400 fns=linfa::dataset::DatasetBase::bootstrap_samples
+// @unit class=bounded tier=quick mem=light bound="n=3,p=3,1 feature per draw,3 consecutive draws,scripted generator" timeout=600 fns=linfa::dataset::DatasetBase::bootstrap_features
 #[kani::proof]
-#[kani::unwind(4)]
+#[kani::unwind(5)]
 #[kani::stub(alloc::fmt::format, fmt_stub)]
-fn c02_zbs_draw1() {
-    let ds = c02_tagged1(2, 2);
-    let mut rng = ScriptRng { vals: [0x9E3779B97F4A7C15, 0x3C6EF372FE94F82A, 0xDAA66D2C7DDF743F, 0x78DDE6E5FD29F054], pos: 0 };
-    let out = ds.bootstrap_samples(1, &mut rng).next().unwrap();
-    c02_post_bootstrap(&out, 2, 2, 1, 2, true, false);
-    kani::cover!(out.nsamples() == 1);
+fn c02_bootstrap_features_draw1() {
+    let ds = c02_tagged1(3, 3);
+    let mut rng = ScriptRng { vals: C02_SCRIPT, pos: 0 };
+    let mut it = ds.bootstrap_features(1, &mut rng);
+    let mut col = [0u8; 3];
+    for k in 0..3 {
+        let out = it.next().unwrap();
+        c02_post_bootstrap(&out, 3, 3, 3, 1, false, true);
+        col[k] = out.records[(0, 0)];
+    }
+    kani::cover!(col[0] != col[1] || col[1] != col[2]);
 }
 
-// @unit class=bounded tier=thorough mem=light bound="exp script bootstrap_samples n=2 draw 2" timeout=400 fns=linfa::dataset::DatasetBase::bootstrap_samples
+// @unit class=bounded tier=thorough mem=light bound="n=3,p=3,(1 sample,1 feature) per draw,2 consecutive draws,scripted generator" timeout=600 fns=linfa::dataset::DatasetBase::bootstrap
 #[kani::proof]
-#[kani::unwind(4)]
+#[kani::unwind(5)]
 #[kani::stub(alloc::fmt::format, fmt_stub)]
-fn c02_zbs_draw2() {
-    let ds = c02_tagged1(2, 2);
-    let mut rng = ScriptRng { vals: [0x9E3779B97F4A7C15, 0x3C6EF372FE94F82A, 0xDAA66D2C7DDF743F, 0x78DDE6E5FD29F054], pos: 0 };
-    let out = ds.bootstrap_samples(2, &mut rng).next().unwrap();
-    c02_post_bootstrap(&out, 2, 2, 2, 2, true, false);
-    kani::cover!(out.nsamples() == 2);
+fn c02_bootstrap_draw1x1() {
+    let ds = c02_tagged1(3, 3);
+    let mut rng = ScriptRng { vals: C02_SCRIPT, pos: 0 };
+    let mut it = ds.bootstrap((1, 1), &mut rng);
+    let mut first = [0u8; 2];
+    for k in 0..2 {
+        let out = it.next().unwrap();
+        c02_post_bootstrap(&out, 3, 3, 1, 1, false, false);
+        first[k] = out.targets[0];
+    }
+    kani::cover!(first[0] != first[1]);
+}
+
+// @unit class=bounded tier=thorough mem=light bound="n=3,p=2,1 sample per draw,SmallRng seeds 0..3" timeout=600 fns=linfa::dataset::DatasetBase::bootstrap_samples
+#[kani::proof]
+#[kani::unwind(9)]
+#[kani::stub(alloc::fmt::format, fmt_stub)]
+fn c02_bootstrap_samples_smallrng() {
+    let ds = c02_tagged1(3, 2);
+    let mut rows = 0usize;
+    for seed in 0..4u64 {
+        let mut rng = SmallRng::seed_from_u64(seed);
+        let out = ds.bootstrap_samples(1, &mut rng).next().unwrap();
+        c02_post_bootstrap(&out, 3, 2, 1, 2, true, false);
+        rows += out.nsamples();
+    }
+    kani::cover!(rows == 4);
+}
+
+// @unit class=bounded tier=thorough mem=light bound="n=3,p=3,1 feature per draw,SmallRng seeds 0..3" timeout=600 fns=linfa::dataset::DatasetBase::bootstrap_features
+#[kani::proof]
+#[kani::unwind(9)]
+#[kani::stub(alloc::fmt::format, fmt_stub)]
+fn c02_bootstrap_features_smallrng() {
+    let ds = c02_tagged1(3, 3);
+    let mut cols = 0usize;
+    for seed in 0..4u64 {
+        let mut rng = SmallRng::seed_from_u64(seed);
+        let out = ds.bootstrap_features(1, &mut rng).next().unwrap();
+        c02_post_bootstrap(&out, 3, 3, 3, 1, false, true);
+        cols += out.nfeatures();
+    }
+    kani::cover!(cols == 4);
+}
+
+// @unit class=bounded tier=thorough mem=light bound="n=3,p=3,(1 sample,1 feature) per draw,SmallRng seeds 0..3" timeout=600 fns=linfa::dataset::DatasetBase::bootstrap
+#[kani::proof]
+#[kani::unwind(9)]
+#[kani::stub(alloc::fmt::format, fmt_stub)]
+fn c02_bootstrap_smallrng() {
+    let ds = c02_tagged1(3, 3);
+    let mut rows = 0usize;
+    for seed in 0..4u64 {
+        let mut rng = SmallRng::seed_from_u64(seed);
+        let out = ds.bootstrap((1, 1), &mut rng).next().unwrap();
+        c02_post_bootstrap(&out, 3, 3, 1, 1, false, false);
+        rows += out.nsamples();
+    }
+    kani::cover!(rows == 4);
 }
